@@ -352,6 +352,8 @@ class Body:
             for pr in pl[1]:
                 if pr.startswith(".") and not pr.startswith(".#"):
                     out.add("field:" + pr[1:])
+                elif pr.startswith(".#") and not (pl[0] == 1 and self.parent and self.kind != "Fn") and not self._is_overflow_tuple(pl[0]):
+                    out.add("idx:" + pr[1:])
             if pl[0] == 1 and self.parent and self.kind != "Fn":
                 for pr in pl[1]:
                     if pr.startswith(".#"):
@@ -430,7 +432,16 @@ class Body:
                 out.add("agg:" + rv["adt"] + ("::" + rv["variant"] if rv.get("variant") else ""))
             for o in rv.get("ops", []):
                 out |= self.operand_sources(o, 0, seen)
+            if rv.get("ak") == "closure":
+                # what a closure value computes from: the calls made in its body (and nested closures)
+                out |= self.facts.closure_calls(rv["adt"], self.crate)
         return out
+
+    def _is_overflow_tuple(self, local):
+        for d in self.defs().get(local, []):
+            if d[0] == "assign" and d[3].get("k") == "bin" and d[3]["op"].endswith("WithOverflow"):
+                return True
+        return False
 
     _upv = None
 
@@ -526,6 +537,7 @@ class Facts:
             if name not in self.files or os.path.getsize(f) > os.path.getsize(self.files[name]):
                 self.files[name] = f
         self.loaded_bodies = 0
+        self.touched = set()
 
     def crates(self):
         return sorted(self.files)
@@ -565,7 +577,10 @@ class Facts:
             crate = path.split("::", 1)[0]
         if crate not in self.files:
             return None
-        return self._load(crate)["bodies"].get(path)
+        b = self._load(crate)["bodies"].get(path)
+        if b is not None:
+            self.touched.add(path)
+        return b
 
     def need(self, path):
         b = self.body(path)
@@ -579,11 +594,40 @@ class Facts:
         bs = [b for b in self.bodies_of_crate(crate) if b.kind in kind and r.search(b.path)]
         if len(bs) != 1:
             raise AnchorLost("%s ~ /%s/ matched %d bodies" % (crate, pat, len(bs)))
+        self.touched.add(bs[0].path)
         return bs[0]
 
     def find(self, crate, pat):
         r = rx(pat)
         return [b for b in self.bodies_of_crate(crate) if r.search(b.path)]
+
+    _cc = None
+
+    def closure_calls(self, path, crate, depth=0):
+        if self._cc is None:
+            self._cc = {}
+        if path in self._cc:
+            return self._cc[path]
+        self._cc[path] = set()
+        out = set()
+        b = self.body(path, crate)
+        if b is not None and depth < 4:
+            for c in b.calls:
+                if c.callee:
+                    out.add("call:" + c.callee)
+                if c.res and c.res != c.callee:
+                    out.add("call:" + c.res)
+            for blk in b.blocks:
+                for st in blk["s"]:
+                    rv = st[1]
+                    if rv.get("k") == "agg" and rv.get("ak") == "closure":
+                        out |= self.closure_calls(rv["adt"], crate, depth + 1)
+                    for pl in ([st[1].get("p")] if st[1].get("p") else []):
+                        for pr in pl[1]:
+                            if pr.startswith(".") and not pr.startswith(".#"):
+                                out.add("field:" + pr[1:])
+        self._cc[path] = out
+        return out
 
     def adt(self, path):
         crate = path.split("::", 1)[0]
